@@ -23,6 +23,12 @@ CHECKS = {
             "range guards; every vector length and pin index is validated by throw before any member is written; params.check() comes first.",
             "Trusted: clang 14 front end; interval evaluator in cqverif/intervals.py. Not decided: exception type/message; row geometry validation.",
             "DESIGN.md 2/C19"),
+    "C08": ("zero-instance rules with positive controls (static storage, mutable/const_cast, entropy sources, clock taint), async-launch discipline, unordered-iteration and read-back reachability analysis",
+            "The structural conditions that make placement a pure function of (circuit, parameters, seed) and the two asynchronous solves race-free are decided for the whole library: "
+            "no mutable static state, no const-bypass, one engine seeded from the parameters and consumed by its owner thread, async callees are const on immutable shared data with copied arguments and are joined, "
+            "unordered iteration never reaches a result, and exported coordinates are never read back.",
+            "Trusted: clang 14 front end; std call classification tables. Not decided: bitwise floating-point reproducibility across machines.",
+            "DESIGN.md 2/C08"),
 }
 
 NOT_APPLICABLE = {
